@@ -94,6 +94,8 @@ Binding == Accepted => SameContent /\ p.f = "valid" /\ AcceptedAs = o.ss
 ChainBound == (o.ss # NoChain /\ p.vs # o.ss) => ~Accepted
 \* malleable / malformed values are rejected
 Malleable == TxClass(p.f) = "dead" => ~Accepted
+\* what must fail is never accepted (consistency of the two verdicts the driver compares)
+FailConsistent == TxMustFail(SignerOf(p.vs), Wire(o, p)) => ~Accepted
 \* sign, then recover: the signer (chain ids >= 1 and Homestead)
 RoundTrip == (SameContent /\ p.f = "valid" /\ p.vc = Honest(o).vc /\ p.vs = o.ss /\ o.ss # 0) => Accepted
 \* design decision of the code, stated so that it is visible: an unprotected transaction is
@@ -101,5 +103,6 @@ RoundTrip == (SameContent /\ p.f = "valid" /\ p.vc = Honest(o).vc /\ p.vs = o.ss
 UnprotectedEverywhere == (o.ss = NoChain /\ SameContent /\ p.f = "valid" /\ p.vc = NoChain) => Accepted
 
 Dump == PrintT(ToJson([o |-> <<o.nonce, o.price, o.gas, o.to, o.value, o.data, o.k, o.ss, o.meth>>,
-                       m |-> hist', x |-> Verdict(o', p')]))
+                       m |-> hist', x |-> Verdict(o', p'),
+                       e |-> TxMustFail(SignerOf(p'.vs), Wire(o', p'))]))
 ===============================================================================
